@@ -18,7 +18,11 @@ import (
 
 // C10: ring-wide key listing returns exactly the stored keys.
 
-var c10Alphabet = []string{"a", "ab", "abc", "abd", "b", "b/x", "b/x/y", "b/y", "c", "ca", "z", "zz/top", "", "a/", "abc/def/ghi"}
+// keys are byte strings: besides the path-like ones, some hold bytes at the edges of the byte
+// range (0xff, 0x00, 0x80) and multi-byte runes, also as last byte of a listing prefix
+var c10Alphabet = []string{"a", "ab", "abc", "abd", "b", "b/x", "b/x/y", "b/y", "c", "ca", "z", "zz/top",
+	"\xff", "a\xff", "a\xffb", "a\xff\xff", "\xff\xff/x", "k\x00", "k\x00z", "k\x80", "é", "éa",
+	"", "a/", "abc/def/ghi"}
 
 type c10Key struct {
 	Key      string   `json:"key"`
@@ -76,6 +80,11 @@ func TestC10(t *testing.T) {
 			cs.Keys = append(cs.Keys, k)
 		}
 		cs.Prefixes = rapid.SliceOfN(rapid.SampledFrom(append([]string{"q", "abx", "b/x/", "zz"}, c10Alphabet...)), 3, 8).Draw(t, "prefixes")
+		// byte-wise prefixes of stored keys (may end inside a multi-byte rune or in 0xff / 0x00)
+		for i := 0; i < 3 && len(cs.Keys) > 0; i++ {
+			k := cs.Keys[rapid.IntRange(0, len(cs.Keys)-1).Draw(t, "prefixOf")].Key
+			cs.Prefixes = append(cs.Prefixes, k[:rapid.IntRange(1, len(k)).Draw(t, "prefixLen")])
+		}
 		cs.Prefixes = append(cs.Prefixes, "")
 
 		newKV, rmDirs := kvFactory(t, cs.Backends)
